@@ -7,6 +7,7 @@ package racelane
 import (
 	"encoding/json"
 	"fmt"
+	"io"
 	"os"
 	"runtime"
 	"strings"
@@ -17,6 +18,7 @@ import (
 	"github.com/hattya/go.sh/ast"
 	"github.com/hattya/go.sh/interp"
 	"github.com/hattya/go.sh/parser"
+	"github.com/hattya/go.sh/printer"
 
 	"verifsim/gosim"
 	"verifsim/props"
@@ -71,6 +73,8 @@ func TestRaceLane(t *testing.T) {
 		fmt.Fprintf(os.Stderr, "CASE %d\n", idx)
 		// the same arguments three times under the real scheduler: the results must be identical
 		first := runCase(c)
+		// (the driver compares this line across the processes running at other GOMAXPROCS values)
+		fmt.Fprintf(os.Stderr, "RES %d %016x\n", idx, gosim.MixStr(0, first))
 		for rep := 0; rep < 2; rep++ {
 			if again := runCase(c); again != first {
 				fmt.Fprintf(os.Stderr, "DIFF %d %q vs %q\n", idx, clip(first), clip(again))
@@ -192,20 +196,30 @@ func runCase(c *props.Case) (result string) {
 			}
 		}
 	}()
-	snap := gosim.TakeSchedSnap()
+	// 20 s of this process's own time (gosim.CPUShare): a starved process is not a hung one
+	var eff time.Duration
+	begin := time.Now()
 	for waiting := true; waiting; {
 		select {
 		case <-done:
 			waiting = false
 		case <-time.After(time.Second):
-			if v := gosim.StallVerdict(snap, 20*time.Second); v != "wait" {
-				fmt.Fprintf(os.Stderr, "HANG (%s)\n", v)
+			runtime.LockOSThread()
+			eff += time.Duration(float64(time.Second) * gosim.CPUShare())
+			runtime.UnlockOSThread()
+			if eff > 20*time.Second || time.Since(begin) > 15*time.Minute {
+				fmt.Fprintf(os.Stderr, "HANG\n")
 				os.Exit(3)
 			}
 		}
 	}
 	return result
 }
+
+// plainReader hides every method but Read.
+type plainReader struct{ r io.Reader }
+
+func (p *plainReader) Read(b []byte) (int, error) { return p.r.Read(b) }
 
 // coldStartBurst: the very first thing a fresh process does is to let eight independent callers use
 // the library at the same time on inputs that touch many constructs, so that anything initialised
@@ -238,13 +252,40 @@ func coldStartBurst() {
 		}
 		words = append(words, cmd.(*ast.Cmd).Expr.(*ast.SimpleCmd).Args[1])
 	}
+	// a history before the burst: prints to writers that fail (whatever the printer keeps between calls)
+	if cmds, _, err := parser.ParseCommands(nil, "w", "if a; then\n b <<E\nx\nE\nfi\n"); err == nil && len(cmds) == 1 {
+		for _, k := range []int{0, 3, 9} {
+			printer.Fprint(&gosim.SimWriter{Plan: gosim.WriterPlan{Kind: "fail", After: k}}, cmds[0])
+		}
+	}
+	for _, w := range []string{"${@#p}", "${@%x}", "\"${@##p?}\"", "${*%%?x}", "$-", "\"$-\" $#"} {
+		wordSrc = append(wordSrc, w)
+		if cmd, _, err := parser.ParseCommand("w", ": "+w); err == nil {
+			words = append(words, cmd.(*ast.Cmd).Expr.(*ast.SimpleCmd).Args[1])
+		}
+	}
 	const G = 8
 	one := func(g int) []string {
 		var out []string
 		for i := range progs {
 			out = append(out, props.SoloDump(progs[(i+g)%len(progs)]))
+			// the same from a plain io.Reader
+			cmds, comments, err := parser.ParseCommands(nil, "sim", &plainReader{strings.NewReader(progs[(i+g)%len(progs)])})
+			out = append(out, fmt.Sprintf("%s %s %v", props.Dump(cmds, 0), props.Dump(comments, 0), err))
 		}
-		env := interp.NewExecEnv("sim")
+		// many short parses from plain readers (with and without a final newline): whatever the library keeps per
+		// source or per call between calls is used by all callers at once
+		for i := 0; i < 300; i++ {
+			text := fmt.Sprintf("echo %d %d | cat <<E%s", g, i, []string{"", "\n", "\nb\nE\n", "\nb\nE"}[i%4])
+			cmds, _, err := parser.ParseCommands(nil, "sim", &plainReader{strings.NewReader(text)})
+			out = append(out, fmt.Sprintf("%d %v", len(cmds), err))
+		}
+		env := interp.NewExecEnv("sim", "p1x", "p2x", "p3x", "p4x", "p5x", "p6x", "p7x", "p8x", "p9x", "p10x", "p11x", "p12x", "p13x")
+		env.Opts = []interp.Option{interp.XTrace | interp.Verbose, interp.NoUnset, interp.ErrExit | interp.NoGlob, interp.AllExport | interp.XTrace}[g%4]
+		for rep := 0; rep < 200; rep++ {
+			v, set := env.Get("-")
+			out = append(out, fmt.Sprint(v.Value, set))
+		}
 		env.Set("y", []string{"abc", "2"}[g%2])
 		env.Set("z", "zz")
 		for i := range exprs {
@@ -280,8 +321,10 @@ func coldStartBurst() {
 	}
 	close(start)
 	wg.Wait()
+	var all []string
 	for g := 0; g < G; g++ {
 		solo := one(g)
+		all = append(all, solo...)
 		if len(solo) != len(res[g]) {
 			fmt.Fprintf(os.Stderr, "DIFF -2 caller %d of the concurrent burst: %d results, alone %d (%q)\n", g, len(res[g]), len(solo), clip(fmt.Sprint(res[g])))
 			continue
@@ -293,4 +336,6 @@ func coldStartBurst() {
 			}
 		}
 	}
+	// what the callers get alone must not depend on the process either (GOMAXPROCS): compared by the driver
+	fmt.Fprintf(os.Stderr, "RES -2 %016x\n", gosim.MixStr(0, strings.Join(all, "\x00")))
 }
